@@ -54,7 +54,8 @@ inline std::vector<Entry> build_catalog(int level, bool with_nan_args)
   std::vector<u64> Sb = as_u64(S_set(level ? 4 : 3, level ? 2 : 1, with_nan_args));
   std::vector<u64> Sm = as_u64(S_set(level ? 3 : 2, 1, with_nan_args));
   static const char* UN[U_COUNT] = { "operator- (unary)", "abs", "isnan", "floor", "ceil", "sin", "cos", "tan", "atan", "asin", "acos", "sqrt", "detail::sqrt_abacus", "detail::sqrt_std_math",
-                                      "sqrt_aprox", "atan_index_aprox", "atan_aprox", "sin_angle(fixed_t)", "cos_angle(fixed_t)", "tan_angle(fixed_t)" };
+                                      "sqrt_aprox", "atan_index_aprox", "atan_aprox", "sin_angle(fixed_t)", "cos_angle(fixed_t)", "tan_angle(fixed_t)",
+                                      "x += x (same object)", "x -= x (same object)", "x *= x (same object)", "x /= x (same object)" };
   for( int op = 0; op < U_COUNT; ++op )
     {
     Entry e; e.name = UN[op]; e.call = [op](Shim* s, u64 a, u64) { return static_cast<u64>(s->fm_un(op, static_cast<i64>(a))); };
@@ -119,6 +120,18 @@ inline std::vector<Entry> build_catalog(int level, bool with_nan_args)
     e.bfmt = is_int_type(t) ? std::function<std::string(u64)>([t](u64 b) { return int_s(t, b); }) : t == T_F32 ? std::function<std::string(u64)>(fmt_f32) : std::function<std::string(u64)>(fmt_f64);
     cat.push_back(e);
     }
+  {
+  std::vector<u64> sv = as_u64(std::vector<i64>{ 0, 65536, -65536, 98304, -98305, 127 * 65536 + 1, 255 * 65536 + 65535, 32767ll * 65536, -32768ll * 65536 - 1, (1ll << 31) * 65536 - 1, 1ll << 62, 0x7ffffffffffffffell, -0x7ffffffffffffffell, 5, 12345678901ll });
+  for( int t : ALL_TYPES )
+    { Entry e; e.name = std::string("static_cast<") + TN[t] + ">(x) twice in one function, x modified in between"; e.dbl = t == T_F64;
+      e.call = [t](Shim* s, u64 a, u64 b) { u64 r1 = 0, r2 = 0; s->fm_seq_conv(t, static_cast<i64>(a), static_cast<i64>(b), &r1, &r2); return r2 ^ (r1 * 0x9e3779b97f4a7c15ull); };
+      e.A = sv; e.B = sv; e.afmt = fmt_i; e.bfmt = fmt_i; cat.push_back(e); }
+  std::vector<u64> cv = as_u64(std::vector<i64>{ 0, 1, 65536, -65536, 3 * 65536, -98304, 205887, 1ll << 40, -(1ll << 46), 1ll << 62, 0x7ffffffffffffffell, -0x7ffffffffffffffell });
+  for( int o1 = 0; o1 < 4; ++o1 ) for( int o2 = 0; o2 < 4; ++o2 )
+    { Entry e; e.name = std::string("x ") + "+-*/"[o1] + "= b; x " + "+-*/"[o2] + "= b'; in one function"; e.bn = "b";
+      e.call = [o1,o2](Shim* s, u64 a, u64 b) { return static_cast<u64>(s->fm_seq_compound(o1, o2, static_cast<i64>(a), static_cast<i64>(b), static_cast<i64>(b >> 3) - 7)); };
+      e.A = as_u64(S_set(2, 1, with_nan_args)); e.B = cv; e.afmt = fmt_i; e.bfmt = fmt_i; cat.push_back(e); }
+  }
   static const char* AF[3] = { "sin_angle", "cos_angle", "tan_angle" };
   for( int fn = 0; fn < A_COUNT; ++fn ) for( int t : { T_I8, T_I16, T_I32, T_I64, T_U8, T_U16, T_U32, T_U64, T_LL, T_ULL, T_F32 } )
     {
